@@ -133,12 +133,15 @@ func New(hydrunInterface hydraidego.Hydraidego) Hydrex {
 // This method ensures full consistency between the stored data and all reverse indices.
 func (h *hydrex) Save(ctx context.Context, indexName string, domain string, items map[string]*CoreData) {
 
-	// get the current core data for the domain
-	// A key becomes the swamp part of the index swamp name, so it has to be a valid name part. Saving the
-	// valid keys of such a call used to leave core data and index out of step (the server rejects the whole
-	// index request); nothing is written instead.
+	// The index name, the domain and every key become parts of swamp names, so each has to be a valid name
+	// part. Saving the valid part of such a call used to leave core data and index out of step (the server
+	// refuses the swamp whose name is not valid and accepts the other one); nothing is written instead.
+	if !isNamePart(indexName) || !isNamePart(domain) {
+		slog.Error("hydrex: index name or domain is empty or contains '/', nothing saved", "indexName", indexName, "domain", domain)
+		return
+	}
 	for key := range items {
-		if key == "" || strings.Contains(key, "/") {
+		if !isNamePart(key) {
 			slog.Error("hydrex: key is empty or contains '/', nothing saved", "indexName", indexName, "domain", domain, "key", key)
 			return
 		}
@@ -306,6 +309,12 @@ func (h *hydrex) GetIndexData(ctx context.Context, indexName string, key string)
 // (e.g., GDPR erasure, object deletion).
 func (h *hydrex) Destroy(ctx context.Context, indexName string, domain string) {
 
+	// Save stores nothing under such names, so there is nothing to remove.
+	if !isNamePart(indexName) || !isNamePart(domain) {
+		slog.Error("hydrex: index name or domain is empty or contains '/', nothing destroyed", "indexName", indexName, "domain", domain)
+		return
+	}
+
 	coreDataName := h.createCoreDataName(indexName, domain)
 
 	deleteManyFromManyReq := make([]*hydraidego.CatalogDeleteManyFromManyRequest, 0)
@@ -334,6 +343,11 @@ func (h *hydrex) Destroy(ctx context.Context, indexName string, domain string) {
 		_ = h.hydraidegoInterface.CatalogDeleteManyFromMany(ctx, deleteManyFromManyReq, nil)
 	}
 
+}
+
+// isNamePart reports whether s can be one part of a swamp name: not empty and without the separator.
+func isNamePart(s string) bool {
+	return s != "" && !strings.Contains(s, "/")
 }
 
 // registerPattern registers the swamp patterns used by Hydrex for both
